@@ -509,3 +509,9 @@ package ast
 //@ func (*Type).AddToPassesTrail
 //@   property C04
 //@   inline
+//
+// TypeName only reads the type (it builds a display name for trails).
+//@ func TypeName
+//@   property C04
+//@   pure
+//@   modifies nothing
